@@ -84,13 +84,14 @@ Proof. exact wire_roundtrip. Qed.
 Print Assumptions C03_wire_roundtrip.
 
 (* (6) outside the guard the faithful model does not carry the object round: one witness per guard clause
-   (unescaped quote in a string, single float and integral double printed without readably, ratio and array
-   with *print-radix*, the symbol named t) — the known findings.  Repaired and therefore gone from the list: the Go index panic on the empty
+   (unescaped quote in a string, single float and integral double printed without readably, ratio with
+   *print-radix*, the symbol named t) — the known findings.  Repaired and therefore gone from the list: the Go index panic on the empty
    symbol under :capitalize (C03-2), names that read as numbers (C03-3), createTree dropping |bars| (C03-4),
    | and \ between bars (C03-5), keywords that need bars (C03-6), ? in a name (C03-7),
    non-ASCII names (C03-8: the reader takes them as tokens), the symbol named . (C03-9),
    symbols named nil (C03-10), names that begin with @ (C03-11),
-   the NUL character (C03-12: #\Null), the characters the reader rejects after #\ (C03-13: by code). *)
+   the NUL character (C03-12: #\Null), the characters the reader rejects after #\ (C03-13: by code),
+   the rank of an array under *print-radix* (C03-14). *)
 Theorem C03_outside_guard_refuted : forallb (fun w => refuted (fst w) (snd w)) refutation_witnesses = true.
 Proof. exact outside_guard_refuted. Qed.
 Print Assumptions C03_outside_guard_refuted.
